@@ -90,8 +90,8 @@ def san_legs(driver, tier, k=3, asan_events=None, miri_events=None, miri_shards=
     out = [
         hist(f"{driver}-asan-raw", driver, variant="asan", events=ae, k=k, shards=2 if q else 6, extra=["--no-inspect", "--no-shrink"], leaks=False, seed_offset=1000),
         hist(f"{driver}-asan", driver, variant="asan", events=ae // 2, k=k + 1, shards=1 if q else 4, extra=["--no-shrink"], seed_offset=2000),
-        hist(f"{driver}-miri-raw", driver, variant="miri", events=me, k=k, shards=ms, extra=["--no-inspect", "--no-shrink"], timeout=2400, seed_offset=3000),
-        hist(f"{driver}-miri", driver, variant="miri", events=me, k=k, shards=ms, extra=["--no-shrink"], timeout=2400, seed_offset=4000),
+        hist(f"{driver}-miri-raw", driver, variant="miri", events=me, k=k, shards=ms, extra=["--no-inspect", "--no-shrink"], timeout=600 if q else 2400, seed_offset=3000),
+        hist(f"{driver}-miri", driver, variant="miri", events=me, k=k, shards=ms, extra=["--no-shrink"], timeout=600 if q else 2400, seed_offset=4000),
     ]
     if not q:
         out.append(hist(f"{driver}-memcheck", driver, events=300_000, k=k, shards=2, extra=["--no-inspect", "--no-shrink"], valgrind=True, timeout=3000, seed_offset=5000))
@@ -111,11 +111,11 @@ def conc_legs(workload, tier, sanitizers=False):
     q = tier == "quick"
     out = [
         conc(f"conc-{workload}", workload, runs=2500 if q else 60_000, shards=6 if q else 16, timeout=600 if q else 3000),
-        conc(f"conc-{workload}-miri", workload, variant="miri", runs=4 if q else 12, shards=3 if q else 16, timeout=2400,
+        conc(f"conc-{workload}-miri", workload, variant="miri", runs=4 if q else 12, shards=3 if q else 16, timeout=300 if q else 1500,
              miriflags="-Zmiri-preemption-rate=0.05", seed_offset=700),
     ]
     if not q:
-        out.append(conc(f"conc-{workload}-miri-p2", workload, variant="miri", runs=8, shards=8, timeout=2400, miriflags="-Zmiri-preemption-rate=0.2", seed_offset=900))
+        out.append(conc(f"conc-{workload}-miri-p2", workload, variant="miri", runs=8, shards=8, timeout=1500, miriflags="-Zmiri-preemption-rate=0.2", seed_offset=900))
     if sanitizers:
         out.append(conc(f"conc-{workload}-tsan", workload, variant="tsan", runs=600 if q else 20_000, shards=2 if q else 8, timeout=600 if q else 3000, seed_offset=800))
     return out
